@@ -98,6 +98,9 @@ let rec next_expr r : expr =
   | "I" -> let _ = next r in EId (KCheck, next_expr r)
   | _ -> raise (Parse_error "expr")
 
+let next_stmoc r : stmoc =
+  next_list r (fun r -> let t = next_ranges r in let s = next_ranges r in (t, s))
+
 (* ---------- printers ---------- *)
 let buf = Buffer.create 4096
 let out_s s = Buffer.add_string buf s
@@ -229,6 +232,30 @@ let handle (r : reader) : unit =
       let bytes = encode_rows (nat_of_int (w / 8)) l in
       out_s "OK ";
       List.iter (fun b -> Buffer.add_string buf (Printf.sprintf "%02x" (int_of_n b))) bytes
+  | "ST2" ->
+      (* ST2 op dt ds out A B : verdict of the verified checkers on the implementation output *)
+      let o = next_op2 r in
+      let dt = next_n r in
+      let ds = next_n r in
+      let out = next_stmoc r in
+      let a = next_stmoc r in
+      let b = next_stmoc r in
+      let w64 = n_of_int 64 in
+      let ub = n_cells_max Hpx w64 in
+      let wf = wfb ub out && wfb ub a && wfb ub b in
+      let valid = valid2db w64 w64 dt ds out in
+      let pts = wf && pts_opb o ub out a b in
+      (* diagnostic flags: each is an extracted sub-predicate of valid2db *)
+      let flag name f = if List.exists f out then [name] else [] in
+      let flags =
+        flag "T_EMPTY" (fun (t, _) -> t = [])
+        @ flag "S_EMPTY" (fun (_, s) -> s = [])
+        @ flag "T_NOT_VALID" (fun (t, _) -> t <> [] && not (valid_mocb Time w64 dt t))
+        @ flag "S_NOT_VALID" (fun (_, s) -> s <> [] && not (valid_mocb Hpx w64 ds s))
+        @ (if time_orderedb N0 out then [] else ["T_ORDER_OR_OVERLAP_BETWEEN_ELEMENTS"])
+        @ (if wf then [] else ["S_NOT_WF"]) in
+      out_s "OK"; out_bool valid; out_bool pts;
+      out_s (" " ^ (if flags = [] then "-" else String.concat "," flags))
   | "EXPR" ->
       let q = next_qty r in
       let w = next_n r in
